@@ -409,6 +409,35 @@ fn kept_across_reset() -> Vec<(String, BTreeMap<String, String>)> {
     out
 }
 
+
+/// Answers that depend on *which object* something is - `derives`, `type(x) == C`, `==` on instances, classes
+/// and closures, a class used as a map key - asked about short-lived objects in a loop: every round makes a
+/// fresh local class (alternately derived from a base class or not), fresh instances and closures, asks, and
+/// lets them die, with 0-3 further objects of the same sizes allocated per round so that a freed address is
+/// handed out again in every pattern.  Run with real reclamation (collect at every allocation, swept objects
+/// *not* quarantined, so addresses are reused at once) the output must equal the never-collect run's: what a
+/// program prints does not depend on an address having had an earlier tenant.
+fn identity_after_address_reuse() -> Vec<String> {
+    let mut out = Vec::new();
+    for extras in 0..4usize {
+        for pattern in 0..3usize {
+            let cond = match pattern {
+                0 => "i % 2 == 0",
+                1 => "i % 3 == 0",
+                _ => "i % 4 < 2",
+            };
+            let extra_decl: String = (0..extras).map(|k| format!("  class Extra{} {{}}\n", k)).collect();
+            let src = format!(
+                "class Shape {{}}\n#[constructor(new)]\nclass Plain {{}}\nfn make(i) {{\n{extra}  if {cond} {{\n    #[constructor(new), derive(Shape)]\n    class Local {{ fn who(self) {{ return \"derived\"; }} }}\n    return Local.new();\n  }}\n  #[constructor(new)]\n  class Local {{ fn who(self) {{ return \"plain\"; }} }}\n  return Local.new();\n}}\nvar wrong = 0;\nfor i in 0..40 {{\n  var x = make(i);\n  var expect = {cond};\n  var y = make(i);\n  var c = || x;\n  var d = || x;\n  var m = {{type(x): \"mine\"}};\n  var line = [x.derives(Shape), y.derives(Shape), x.derives(Object), type(x) == type(y), type(x) == Shape, x == y, x == x, c == d, c == c, m.get(type(y)), m.get(type(x)), x.who()];\n  if x.derives(Shape) != expect {{ wrong += 1; }}\n  print(line);\n}}\nprint(wrong);\n",
+                extra = extra_decl,
+                cond = cond
+            );
+            out.push(src);
+        }
+    }
+    out
+}
+
 pub fn run(ctx: &Ctx) -> Report {
     let mut report = Report::new();
     let active = active_findings(ctx, &mut report);
@@ -574,6 +603,35 @@ pub fn run(ctx: &Ctx) -> Report {
         }
         acc
     });
+    // identity answers after address reuse: never-collect against collect-at-every-allocation with real
+    // reclamation (no quarantine)
+    let mut reuse_violations: Vec<(String, serde_json::Value)> = Vec::new();
+    let n_reuse;
+    {
+        let progs = identity_after_address_reuse();
+        n_reuse = progs.len();
+        let res = par_map(&ctx.runner_checked, ctx.workers.min(12), progs.into_iter(), |runner, _i, src| {
+            runner.timeout = std::time::Duration::from_secs(60);
+            let (_, never, _, _) = run_with(runner, &src, gc("never", vec![], false));
+            let (_, reclaimed, _, _) = run_with(runner, &src, gc("default", vec![], false));
+            let (_, quarantined, uaf, _) = run_with(runner, &src, gc("default", vec![], true));
+            (src, never, reclaimed, quarantined, uaf)
+        });
+        for (src, never, reclaimed, quarantined, uaf) in res {
+            let ok = matches!(never.as_ref().map(|r| &r.outcome), Some(proto::Outcome::Ok)) && never.as_ref().map(|r| r.out.last().map(|l| l == "0").unwrap_or(false)).unwrap_or(false);
+            if !ok {
+                reuse_violations.push((format!("[identity after address reuse] the program does not run as expected even without collections: {:?}", never.as_ref().map(|r| (r.out.last().cloned(), r.outcome.clone()))), json!({"family": "identity_after_address_reuse", "request": {"op": "run", "snippets": [src], "gc": {"mode": "never", "quarantine": false}}})));
+                continue;
+            }
+            if !same(&never, &reclaimed) || !same(&never, &quarantined) || !uaf.is_empty() {
+                let first_diff = never.as_ref().and_then(|n| reclaimed.as_ref().map(|r| n.out.iter().zip(r.out.iter()).position(|(a, b)| a != b)));
+                reuse_violations.push((
+                    format!("[identity after address reuse] output with collections differs from the never-collect run (first differing line {:?}; with reclamation the last line is {:?}, use-after-free events {:?})", first_diff, reclaimed.as_ref().and_then(|r| r.out.last()), uaf.iter().take(2).collect::<Vec<_>>()),
+                    json!({"family": "identity_after_address_reuse", "request": {"op": "run", "snippets": [src], "gc": {"mode": "default", "quarantine": false}, "want": ["uaf"]}, "observed": reclaimed, "never_collect_run": never}),
+                ));
+            }
+        }
+    }
     let mut acc = Acc::default();
     let mut paced_runs = 0usize;
     let mut paced_violations: Vec<(String, serde_json::Value)> = Vec::new();
@@ -603,6 +661,8 @@ pub fn run(ctx: &Ctx) -> Report {
     }
     acc.runs += paced_runs;
     acc.violations.extend(paced_violations);
+    acc.violations.extend(reuse_violations);
+    report.cov("identity_after_address_reuse_programs", json!(n_reuse));
     for (k, v) in paced_attributed {
         *acc.attributed.entry(k).or_insert(0) += v;
     }
